@@ -228,6 +228,10 @@ func PerformInvite(ctx context.Context, input PerformInviteInput, fedClient Fede
 				return nil, spec.Forbidden(err.Error())
 			}
 
+			if inviteEvent.StateKey() == nil {
+				logger.Error("fedClient.SendInviteV3 returned an event without a state key")
+				return nil, spec.Forbidden("the invite event returned by the remote server has no state key")
+			}
 			err = input.StoreSenderIDFromPublicID(ctx, spec.SenderID(*inviteEvent.StateKey()), input.Invitee.String(), input.RoomID)
 			if err != nil {
 				logger.WithError(err).Errorf("failed storing senderID for %s", input.Invitee.String())
